@@ -612,7 +612,7 @@ func (g *goPrinter) expr(ex Expr) string {
 					as = append(as, g.expr(a))
 				}
 				return "vs.EqBytes(" + strings.Join(as, ", ") + ")"
-			case "fresh", "allocated", "region", "offset", "rsize", "avail", "same", "istype", "astype", "typeid", "bytes", "maplen":
+			case "fresh", "allocated", "region", "offset", "rsize", "avail", "same", "istype", "astype", "typeid", "bytesat", "maplen":
 				g.fail("builtin %s has no executable reading", id.Name)
 			}
 			if p := g.pred(id.Name); p != nil {
